@@ -3,7 +3,10 @@ import AcraModel.KeystoreSec.ConcurrentOrder
 import AcraModel.KeystoreSec.ConcurrentRefine
 import AcraModel.KeystoreSec.ConcurrentFresh
 import AcraModel.KeystoreSec.ConcurrentCreate
+import AcraModel.KeystoreSec.ConcurrentLock
+import AcraModel.KeystoreSec.FileLockLemmas
 import AcraModel.Generated.KeystoreCreate
+import AcraModel.Generated.FileLock
 /-!
 # C17 — concurrent keystore writers never lose each other's updates
 
@@ -14,6 +17,11 @@ calls over one shared back end), the invariant proofs are in `KeystoreSec/Concur
 Ring files may be missing at the start (`St.ex`); `OpenKeyRingRW` (`Op.open`) creates them.
 All theorems quantify over **every schedule** (`sched : List Nat`, any interleaving of any number
 of threads at the granularity of single back-end calls) and every program of operations per thread.
+
+The lock itself is one abstract object in that model. The last part of this file ("the lock file's life
+cycle") is about what the directory back end really locks – the inode of `<dir>/.lock`, through one descriptor
+per handle – for every history of handles being opened and closed (`KeystoreSec/FileLock.lean`, invariants in
+`KeystoreSec/FileLockLemmas.lean`, the tie to the abstract lock in `KeystoreSec/ConcurrentLock.lean`).
 -/
 namespace AcraModel.Props.C17
 open AcraModel AcraModel.KeystoreSec.Conc
@@ -433,6 +441,191 @@ theorem created_ring_keeps_every_add (s0 : St) (h0 : Initial s0) (p : Nat) (hp :
   rw [h0.missing p hp.missing] at hl
   exact ⟨hl, (seqnums_unique_increasing s0 h0 p (hp.ordered h0) sched).1,
     fun i hi d txs hd => addKey_reflected_exactly_once s0 h0 p (hp.ordered h0) sched i hi d txs hd⟩
+
+/-! ## the lock file's life cycle: what the directory back end really locks -/
+
+section lockfile
+open AcraModel.KeystoreSec.FileLock
+
+open Generated.FileLock in
+/-- How a handle gets its lock: `newFileLock(path)` makes exactly one call, `os.Create(path)` on its own
+parameter, and keeps the descriptor (`lockFile`) and the path; `os.Create` (Go standard library) passes
+`O_RDWR|O_CREATE|O_TRUNC` – it creates the file only when the path names nothing and otherwise opens the file
+the path names (no `O_EXCL`). Both constructors of `DirectoryBackend` anchor the lock at the same path,
+`filepath.Join(root, lockFile)` with `lockFile = ".lock"`. This is the model's `LOp.openH`. -/
+theorem fact_filelock_open :
+    newFileLockCalls = ["os.Create"] ∧ newFileLockOpenArg = ["path"] ∧ newFileLockParams = ["path"] ∧
+    newFileLockAssigns = ["lock, err := os.Create(path)"] ∧
+    newFileLockFields = ["lockFile=lock", "path=path"] ∧
+    osCreateFlags = ["O_RDWR", "O_CREATE", "O_TRUNC"] ∧
+    createBackendLockPath = ["filepath.Join(root, lockFile)"] ∧
+    openBackendLockPath = ["filepath.Join(root, lockFile)"] ∧
+    lockFileName = ".lock" := by decide
+
+open Generated.FileLock in
+/-- How a handle gives its lock up: `fileLock.Close` makes exactly one call, `l.lockFile.Close()` – it closes
+the descriptor and does NOT remove (or rename) the lock file, so the model's close step runs with
+`closeUnlinks = false`. `DirectoryBackend.Close` only closes the lock (and logs), `KeyStore.Close` only closes the
+back end. Besides the two constructors only `ListAll` mentions the lock file's name (to skip it), and the only
+functions that use the lock's stored path are the poisoning / recovery pair (which close and re-open the same
+path, `os.Create(l.path)`, after a failed `LOCK_UN`). -/
+theorem fact_filelock_close :
+    fileLockCloseCalls = ["l.lockFile.Close"] ∧
+    backendCloseCalls = ["b.lock.Close", "b.log.WithError().Warn", "b.log.WithError"] ∧
+    keyStoreCloseCalls = ["s.fs.Close", "runtime.SetFinalizer"] ∧
+    lockPathUsers = ["fileLock.poisonLock", "fileLock.recoverLock"] ∧
+    lockFileNameUsers = ["CreateDirectoryBackend", "OpenDirectoryBackend", "DirectoryBackend.ListAll"] ∧
+    poisonLockCalls = ["l.lockFile.Close"] ∧ recoverLockCalls = ["os.Create"] ∧ recoverLockOpenArg = ["l.path"] ∧
+    closeUnlinks = false := by decide
+
+open Generated.FileLock in
+/-- The lock cycle is the one the model runs: `Lock` / `RLock` take the handle's mutex first
+(`LOp.enter`), then call `syscall.Flock` on the handle's own descriptor with `LOCK_EX` / `LOCK_SH` (`LOp.acquire`),
+giving the mutex back only on an error path; `Unlock` / `RUnlock` release the mutex (deferred) after
+`syscall.Flock(fd, LOCK_UN)` (`LOp.release`). The `DirectoryBackend` methods only delegate. -/
+theorem fact_filelock_cycle :
+    lockCalls = ["l.lockSync.Lock", "l.recoverLock", "l.lockSync.Unlock", "syscall.Flock", "l.lockSync.Unlock"] ∧
+    rLockCalls = ["l.lockSync.Lock", "l.recoverLock", "l.lockSync.Unlock", "syscall.Flock", "l.lockSync.Unlock"] ∧
+    unlockCalls = ["defer:l.lockSync.Unlock", "syscall.Flock", "l.poisonLock"] ∧
+    rUnlockCalls = ["defer:l.lockSync.Unlock", "syscall.Flock", "l.poisonLock"] ∧
+    lockFlockMode = ["syscall.LOCK_EX"] ∧ rLockFlockMode = ["syscall.LOCK_SH"] ∧
+    unlockFlockMode = ["syscall.LOCK_UN"] ∧ rUnlockFlockMode = ["syscall.LOCK_UN"] ∧
+    lockFlockFd = ["int(l.lockFile.Fd())"] ∧ rLockFlockFd = ["int(l.lockFile.Fd())"] ∧
+    unlockFlockFd = ["int(l.lockFile.Fd())"] ∧ rUnlockFlockFd = ["int(l.lockFile.Fd())"] ∧
+    backendLockCalls = ["b.lock.Lock"] ∧ backendRLockCalls = ["b.lock.RLock"] ∧
+    backendUnlockCalls = ["b.lock.Unlock"] ∧ backendRUnlockCalls = ["b.lock.RUnlock"] := by decide
+
+/-- the regenerated `Close` behaviour, as an equation the theorems below rewrite with -/
+theorem close_keeps_lock_file : closeUnlinks = false := fact_filelock_close.2.2.2.2.2.2.2.2
+
+/-- **All handles of a key directory lock the same file.** With the code's `Close`, for every history `ops` of
+handles being opened, closed, locking and unlocking – from a directory in which `.lock` exists already (`p =
+some _`) or not (`p = none`) – every handle ever opened (still open or closed since) refers to one and the
+same inode, and that inode is the one the path `.lock` names now: the next handle to be opened will get it,
+too. -/
+theorem lock_inode_shared (p : Option Nat) (ops : List LOp) :
+    let s := lrun closeUnlinks (linit p) ops
+    ∀ i, i < s.n → s.path = some (s.h i).ino ∧ ∀ j, j < s.n → (s.h i).ino = (s.h j).ino := by
+  intro s i hi
+  have hs : Single s := by
+    show Single (lrun closeUnlinks (linit p) ops)
+    rw [close_keeps_lock_file]
+    exact lrun_single _ ops (linit_inv p) (linit_single p)
+  refine ⟨hs i hi, fun j hj => ?_⟩
+  have e1 := hs i hi
+  have e2 := hs j hj
+  rw [e1] at e2
+  exact Option.some.inj e2
+
+/-- **Mutual exclusion carries over to any number of handles opened and closed at any time.** With the code's
+`Close`, in every reachable state of the life-cycle model: two handles whose descriptors hold an exclusive
+`flock` are the same handle, and while one handle holds the exclusive lock no other handle holds any lock,
+shared or exclusive. -/
+theorem lifecycle_mutual_exclusion (p : Option Nat) (ops : List LOp) (i j : Nat) :
+    let s := lrun closeUnlinks (linit p) ops
+    ((s.h i).held = some .ex → (s.h j).held = some .ex → i = j) ∧
+    ((s.h i).held = some .ex → i ≠ j → (s.h j).held = none) := by
+  intro s
+  have hinv : LInv s := lrun_inv closeUnlinks (linit p) ops (linit_inv p)
+  have hs : Single s := by
+    show Single (lrun closeUnlinks (linit p) ops)
+    rw [close_keeps_lock_file]
+    exact lrun_single _ ops (linit_inv p) (linit_single p)
+  refine ⟨fun hi hj => ?_, fun hi hij => global_excl hinv hs i j hij hi⟩
+  apply Classical.byContradiction
+  intro hij
+  have := global_excl hinv hs i j hij hi
+  rw [hj] at this; cases this
+
+/-- **What `flock(2)` alone gives, whatever `Close` does:** exclusion among the handles whose descriptors refer
+to the *same inode* – an exclusive holder, and next to it no other holder on that inode. (With a `Close` that
+unlinks, handles of one directory can refer to different inodes: `unlinking_close_counterexample`.) -/
+theorem flock_excludes_per_inode (cu : Bool) (p : Option Nat) (ops : List LOp) (i j : Nat) :
+    let s := lrun cu (linit p) ops
+    i ≠ j → (s.h i).ino = (s.h j).ino → (s.h i).held = some .ex → (s.h j).held = none :=
+  (lrun_inv cu (linit p) ops (linit_inv p)).excl i j
+
+/-- **The per-handle mutex keeps a handle from converting its own lock.** In every reachable state (whatever
+`Close` does) a handle that is asking for a `flock` (inside `Lock()` / `RLock()`) holds its mutex and no `flock`
+yet, and a handle that holds a `flock` holds its mutex and is not asking for another one – so `flock(2)`'s
+silent conversion of a lock already held through the same descriptor never happens. -/
+theorem handle_never_converts_its_flock (cu : Bool) (p : Option Nat) (ops : List LOp) (i : Nat) :
+    let s := lrun cu (linit p) ops
+    ((s.h i).want ≠ none → (s.h i).isOpen = true ∧ (s.h i).mutex = true ∧ (s.h i).held = none) ∧
+    ((s.h i).held ≠ none → (s.h i).isOpen = true ∧ (s.h i).mutex = true ∧ (s.h i).want = none) :=
+  ⟨(lrun_inv cu (linit p) ops (linit_inv p)).wantOpen i, (lrun_inv cu (linit p) ops (linit_inv p)).heldOpen i⟩
+
+/-- **The life cycle of the real lock refines the abstract lock of the concurrency model.** With the code's
+`Close`, every history of opens, closes, lock and unlock calls on any number of handles is, seen through the
+abstraction "writer = the handle holding `LOCK_EX`, readers = the handles holding `LOCK_SH`" (`Abs`), a sequence of
+moves of the abstract lock (`AStep`: the exclusive lock is granted only when there is no writer and no reader,
+the shared lock only when there is no writer; opening a handle, entering `Lock()`, closing a handle that holds
+nothing are stutter steps; closing a handle that holds a lock releases it). -/
+theorem lifecycle_refines_abstract_lock (p : Option Nat) (ops : List LOp) :
+    ∃ b, Abs (lrun closeUnlinks (linit p) ops) b ∧ AReach ALock.free b := by
+  rw [close_keeps_lock_file]
+  exact lrun_refines (linit p) ops (linit_inv p) (linit_single p) ALock.free ALock.free .refl (linit_abs p)
+
+/-- **… and that abstract lock is the one `mutual_exclusion` and `v2_linearizable` are about.** Under every
+schedule the lock of the concurrency model (`St.writer`, `St.readers` – what `stepCall` consults before it lets
+a thread `Lock`/`RLock`) moves only by moves of the same abstract lock. Together with
+`lifecycle_refines_abstract_lock`: the all-schedules theorems of this file assume a lock that behaves like
+`ALock`, and the lock file – for every history of handles opened and closed – is one. -/
+theorem conc_lock_is_abstract_lock (s0 : St) (h0 : Initial s0) (sched : List Nat) :
+    ∃ b, LockView (run s0 sched) b ∧ AReach ALock.free b :=
+  run_lockView s0.cur s0 sched (initial_inv s0 h0) ALock.free ALock.free .refl
+    ⟨by simp [ALock.free, h0.writer], by intro j; simp [ALock.free, h0.readers]⟩
+
+/-- **Why a `Close` that unlinks is fatal, in general:** in every reachable state (whatever `Close` does), when
+the path `.lock` names nothing, the handle opened next gets an inode that no handle opened before refers to –
+`flock` will never make it wait for any of them. -/
+theorem unlinked_open_gets_new_inode (cu : Bool) (p : Option Nat) (ops : List LOp) :
+    let s := lrun cu (linit p) ops
+    s.path = none → ∀ i, i < s.n → ((lstep cu s .openH).h s.n).ino ≠ (s.h i).ino := by
+  intro s hp i hi
+  have hinv : LInv s := lrun_inv cu (linit p) ops (linit_inv p)
+  have := hinv.freshH i hi
+  simp only [lstep, hp, KeystoreSec.FileLock.upd_same]
+  omega
+
+/-- the history of the seeded change: S is opened, T is opened and closed again, U is opened; S and then U ask
+for the exclusive lock -/
+def stuHistory : List LOp :=
+  [.openH, .openH, .closeH 1, .openH, .enter 0 .ex, .acquire 0, .enter 2 .ex, .acquire 2]
+
+/-- **Counterexample for the unlinking `Close`.** If `fileLock.Close` also removed the lock file, the history
+S open, T open, T close, U open would leave S and U – both open – on *different* inodes, and both would hold the
+exclusive `flock` at the same time. (With the code's `Close` the same history leaves U waiting inside
+`Lock()`: second part.) -/
+theorem unlinking_close_counterexample :
+    let s := lrun true (linit none) stuHistory
+    ((s.h 0).isOpen = true ∧ (s.h 2).isOpen = true ∧ (s.h 0).ino ≠ (s.h 2).ino ∧
+      (s.h 0).held = some .ex ∧ (s.h 2).held = some .ex) ∧
+    (let t := lrun false (linit none) stuHistory
+     (t.h 0).ino = (t.h 2).ino ∧ (t.h 0).held = some .ex ∧ (t.h 2).held = none ∧ (t.h 2).want = some .ex) := by
+  decide
+
+/-! ### non-vacuity -/
+
+/-- a reachable state of the life cycle (code's `Close`) in which the exclusive lock is held while another
+handle waits, a third is closed, and two readers share the lock afterwards -/
+example : ((lrun closeUnlinks (linit none) stuHistory).h 0).held = some .ex := by decide
+
+example : let s := lrun closeUnlinks (linit (some 7))
+              [.openH, .openH, .enter 0 .sh, .acquire 0, .enter 1 .sh, .acquire 1, .closeH 0, .openH, .enter 2 .ex, .acquire 2]
+    (s.h 0).isOpen = false ∧ (s.h 1).held = some .sh ∧ (s.h 2).want = some .ex ∧ (s.h 2).held = none ∧ (s.h 2).ino = 7 := by
+  decide
+
+/-- the abstract lock really moves: from the free lock, handle 0 takes the exclusive lock and gives it back,
+then handles 1 and 2 share it -/
+example : AReach ALock.free ⟨none, fun j => if j = 2 then true else if j = 1 then true else false⟩ :=
+  .step (.step (.step (.step .refl
+    (.lock 0 rfl (fun _ => rfl) (b := ⟨some 0, fun _ => false⟩) rfl (fun _ => rfl)))
+    (.unlock 0 rfl (b := ⟨none, fun _ => false⟩) rfl (fun _ => rfl)))
+    (.rlock 1 rfl (b := ⟨none, fun j => if j = 1 then true else false⟩) rfl (fun _ => rfl)))
+    (.rlock 2 rfl rfl (fun _ => rfl))
+
+end lockfile
 
 /-! ## non-vacuity: a concrete race -/
 
